@@ -37,6 +37,8 @@ var c07Sets = [][]c07Route{
 	// a static route registered for all methods after an optional twin for GET only, with header
 	// constraints (every method's leaf has its own standing in its own tree)
 	{{"GET", "/a/?z", nil}, {"*", "/a/z", []string{"X-K", "^v$"}}, {"POST", "/{m: **}", nil}},
+	// the constrained header named in a non-canonical spelling
+	{{"GET", "/a", []string{"x-k", "^v$"}}, {"GET", "/{x}", nil}},
 	// a larger mixed table (many siblings of every kind under two prefixes)
 	{{"GET", "/", nil}, {"GET", "/a", nil}, {"GET", "/a/", nil}, {"GET", "/a/b", nil}, {"GET", "/a/{x}", nil}, {"GET", "/a/{r: /[a2]+/}/z", nil}, {"GET", "/a/{m: **, capture: 3}/z", nil},
 		{"GET", "/a/c/?d", nil}, {"GET", "/z/{p}/{q}", nil}, {"GET", "/z/{p}/{q}/{r: /z+/}", nil}, {"GET", "/z/{m: **}", nil}, {"GET", "/{x}/z", nil}, {"GET", "/{s: /[.?]+/}", nil},
@@ -44,7 +46,9 @@ var c07Sets = [][]c07Route{
 }
 
 var c07Methods = []string{"GET", "POST", "HEAD", "BREW", "get", ""}
-var c07HdrSets = []map[string][]string{nil, {"X-K": {"v"}}, {"X-K": {"w"}}, {"X-K": {""}}, {"X-K": {"v", "w"}}, {"X-K": {"w", "v"}}}
+var c07HdrSets = []map[string][]string{nil, {"X-K": {"v"}}, {"X-K": {"w"}}, {"X-K": {""}}, {"X-K": {"v", "w"}}, {"X-K": {"w", "v"}},
+	// a header name present with no value at all, and one stored under a non-canonical key (invisible to Header.Get)
+	{"X-K": nil}, {"X-K": {}}, {"x-k": {"v"}}}
 
 type c07World struct {
 	f      *flamego.Flame
